@@ -57,15 +57,20 @@ func ParseLog(text string) {
 		fileFieldName := changes[3]
 		change := FileChange{added, deleted, fileFieldName, ""}
 
+		if _, ok := currentFileChangeMap[fileFieldName]; !ok {
+			currentFileChangeOrder = append(currentFileChangeOrder, fileFieldName)
+		}
 		currentFileChangeMap[fileFieldName] = change
 	} else if changeModeReg.MatchString(text) {
 		buildChangeMode(text)
 	} else if currentCommit.Rev != "" {
-		for _, value := range currentFileChangeMap {
-			currentFileChanges = append(currentFileChanges, value)
+		// keep the changes in the order git printed them: later passes apply renames in sequence
+		for _, name := range currentFileChangeOrder {
+			currentFileChanges = append(currentFileChanges, currentFileChangeMap[name])
 		}
 
 		currentFileChangeMap = make(map[string]FileChange)
+		currentFileChangeOrder = nil
 		currentCommit.Changes = currentFileChanges
 		commits = append(commits, currentCommit)
 
